@@ -2,7 +2,7 @@
 
 package main
 
-// Stream parse: the real convertRawBosonFrame and lepton3.ParseRawFrame on generated raw
+// Stream parse: the parsers the daemon selects (frameParser: convertRawBosonFrame / lepton3.ParseRawFrame) on generated raw
 // frames (zeros planted on both sides of the edge border).
 
 import (
@@ -38,12 +38,17 @@ func runParse(in *bufio.Scanner, w *bufio.Writer) {
 			}
 		}
 		vGuard(w, "parse", func() {
-			var err error
-			if f[1] == "boson" {
-				err = convertRawBosonFrame(raw, out, edge)
-			} else {
-				err = lepton3.ParseRawFrame(raw, out, edge)
+			// the parser the daemon itself selects for this camera (handleConn: frameParser(brand, model))
+			model := f[1]
+			if model == "lepton" {
+				model = []string{lepton3.Model, lepton3.Model35}[len(raw)%2]
 			}
+			parse := frameParser("flir", model)
+			if parse == nil {
+				fmt.Fprintln(w, "< no-parser")
+				return
+			}
+			err := parse(raw, out, edge)
 			if err != nil {
 				if _, isBad := err.(*lepton3.BadFrameErr); isBad {
 					fmt.Fprintf(w, "< bad %s\n", hexOfPix(out.Pix))
